@@ -28,6 +28,15 @@ def _copy_sources(dst):
 
 
 def _apply(root, m):
+    if m.get('patch'):
+        # a unified diff (relative to /verif) applied with patch -p1: seeded changes and refactoring twins kept as files
+        pf = os.path.join(VERIF, m['patch'])
+        if not os.path.exists(pf):
+            return 'inapplicable: patch file %s missing' % m['patch']
+        p = subprocess.run(['patch', '-p1', '-s', '--forward', '-i', pf], cwd=root, capture_output=True, text=True)
+        if p.returncode != 0:
+            return 'inapplicable: patch %s does not apply to the current tree' % m['patch']
+        return None
     path = os.path.join(root, m['file'])
     with open(path, encoding='utf-8') as fh:
         s = fh.read()
@@ -69,9 +78,27 @@ def _run_one(pid, m, base):
         shutil.rmtree(root, ignore_errors=True)
 
 
+def _indexed(kind, pid, mutant):
+    """Seeded changes confirmed by independent agents (mutants) and behaviour-preserving refactorings (twins) kept under
+    /verif/<kind>/ with an INDEX.json: [{id, patch, checks: {<pid>: <rule or null>}}]."""
+    import json
+    idx = os.path.join(VERIF, kind, 'INDEX.json')
+    if not os.path.exists(idx):
+        return []
+    out = []
+    for e in json.load(open(idx)):
+        if pid in e.get('checks', {}):
+            if mutant and not e['checks'][pid]:
+                continue
+            out.append(dict(name='%s:%s' % (kind, e['id']), patch=e['patch'], expect=e['checks'][pid] if mutant else None))
+    return out
+
+
 def run_selftest(pid, mod, run):
     mutants = list(getattr(mod, 'MUTANTS', []))
     twins = list(getattr(mod, 'TWINS', []))
+    mutants += _indexed('seeded', pid, True)
+    twins += _indexed('refactorings', pid, False)
     if not mutants:
         return
     base = tempfile.mkdtemp(prefix='sa_selftest_base_')
